@@ -479,6 +479,13 @@ func (vx *Vaxis) Refresh() {
 	vx.Render()
 }
 
+// hiddenCell is what the renderer remembers for a cell covered by a wide
+// character to its left. It never equals a cell the application can set
+// (sixel cells are skipped before the comparison), so once the wide character
+// is gone the cell is always redrawn instead of trusting whatever the
+// terminal left of the overwritten glyph
+var hiddenCell = Cell{sixel: true}
+
 func (vx *Vaxis) render() {
 	vx.mu.Lock()
 	defer vx.mu.Unlock()
@@ -543,7 +550,7 @@ outerNew:
 						break
 					}
 					// null out any cells we end up skipping
-					vx.screenLast.buf[row][col+i] = Cell{}
+					vx.screenLast.buf[row][col+i] = hiddenCell
 				}
 				col += skip
 				continue
@@ -748,7 +755,7 @@ outerNew:
 					break
 				}
 				// null out any cells we end up skipping
-				vx.screenLast.buf[row][col+i] = Cell{}
+				vx.screenLast.buf[row][col+i] = hiddenCell
 			}
 			col += skip
 		}
